@@ -91,12 +91,17 @@ Fixpoint rule_holds (cfg : scfg) (pos : N) (S : list zseq) : Prop :=
                    rule_holds cfg (pos + q_ll s + q_ml s) r
   end.
 
-(* same on the stored pieces, positions advanced the way the code advances posInSrc *)
+(* same on the stored pieces of a block laid from position [pos] *)
 Fixpoint stored_rule (cfg : scfg) (pos : N) (st : list sseq) : Prop :=
   match st with
   | [] => True
-  | t :: r => (t_raw t <= offset_bound cfg (pos + add32 (t_ll t) (t_ml t) - t_ml t) /\ match_len_lower cfg <= t_ml t) /\
-              stored_rule cfg (pos + add32 (t_ll t) (t_ml t)) r
+  | t :: r => (1 <= t_raw t /\ t_raw t <= offset_bound cfg (pos + t_ll t) /\ match_len_lower cfg <= t_ml t) /\
+              stored_rule cfg (pos + t_ll t + t_ml t) r
+  end.
+Fixpoint blocks_rule (cfg : scfg) (P : N) (blks : list blk) : Prop :=
+  match blks with
+  | [] => True
+  | b :: r => stored_rule cfg P (b_seqs b) /\ blocks_rule cfg (P + b_size b) r
   end.
 
 Definition nowrap (S : list zseq) : Prop := Forall (fun s => q_ll s + q_ml s < M32) S.
@@ -113,3 +118,18 @@ Fixpoint placements (pos : N) (S : list zseq) : list (N * N * N) :=
   | s :: r => if is_delim s then placements (pos + q_ll s) r
               else (pos + q_ll s, q_ml s, q_off s) :: placements (pos + q_ll s + q_ml s) r
   end.
+
+Fixpoint total_len (S : list zseq) : N :=
+  match S with [] => 0 | s :: r => q_ll s + q_ml s + total_len r end.
+Fixpoint sum32 (S : list zseq) : N :=
+  match S with [] => 0 | s :: r => add32 (q_ll s) (q_ml s) + sum32 r end.
+
+(* configurations *)
+Definition cfg_found (wlog minMatch dict maxNb : N) (validate : bool) : scfg :=
+  {| g_wlog := wlog; g_minMatch := minMatch; g_validate := validate; g_producer := false; g_dict := dict;
+     g_maxNbSeq := maxNb; g_fixed := false |}.
+Definition cfg_fixed (wlog minMatch dict maxNb : N) (validate : bool) : scfg :=
+  {| g_wlog := wlog; g_minMatch := minMatch; g_validate := validate; g_producer := false; g_dict := dict;
+     g_maxNbSeq := maxNb; g_fixed := true |}.
+Definition is_done {A} (o : outc A) : bool := match o with Done _ => true | _ => false end.
+Definition is_oob {A} (o : outc A) : bool := match o with Oob _ => true | _ => false end.
